@@ -9,27 +9,22 @@ HASH_EQ = ('<bitar::hashsum::HashSum as core::cmp::PartialEq>::eq', '<bitar::has
 OK_OUTCOMES = ('Ok', 'Unknown', 'Unassigned')
 
 
+class _Exits(Rule):
+    init = None
+
+    def __init__(self):
+        self.outs = set()
+
+    def on_exit(self, b, bi, state, outcome):
+        self.outs.add(outcome)
+
+
 def exit_outcomes_from(b, start):
-    """set of outcomes of all exits reachable from block `start` (outcome starts Unassigned)"""
-    seen = set()
-    outs = set()
-    w = [(start, 'Unassigned')]
-    while w:
-        bi, oc = w.pop()
-        if (bi, oc) in seen or b.blocks[bi].get('cleanup'):
-            continue
-        seen.add((bi, oc))
-        blk = b.blocks[bi]
-        for st in blk['stmts']:
-            oc = outcome_after_stmt(b, st, oc)
-        t = blk['term']
-        if t['k'] == 'return':
-            outs.add(oc)
-            continue
-        oc = outcome_after_term(b, t, oc)
-        for s in succs(t):
-            w.append((s, oc))
-    return outs
+    """set of outcomes of all function exits reachable from block `start` (the outcome of each frame starts Unassigned;
+    known enum variants prune the `?` dispatch after an inlined helper returned Err / Ok)"""
+    r = _Exits()
+    Explorer(b, r, start=start).run()
+    return r.outs
 
 
 def bool_switch_polarity(b, T, t):
